@@ -110,3 +110,8 @@ claim("C06", "DESIGN.md 5 C06",
       "All sequences of Packetize / SkipSamples / GeneratePadding calls (depth 2 over the full 31-call alphabet, depth 3 - thorough 4 - over a 12-call sub-alphabet) x 6 MTUs x 8 real payloaders behind a recording wrapper x abs-send-time off / id 1 / id 14 x 4 start configurations (sequencer start incl. 65534/65535 for the wrap, initial timestamp answered through the random seam incl. values that wrap, clock answered through the clock seam). A two-counter reference model (next sequence number, timestamp) is stepped alongside: payloader called once with the caller's payload and a budget <= MTU-12, packets carry the recorded fragments in order, consecutive sequence numbers across all calls, one timestamp per call advancing by samples and skipped samples mod 2^32, SSRC/PT/version 2, marker on the last only, abs-send-time only on the last packet and equal to the independently computed 24-bit value of the clock answer, every packet marshals to <= MTU bytes and parses back equal, padding packets marshal to valid padding-only packets.",
       "Hooks (build tag verif): VerifSetRandom for the initial timestamp, VerifSetClock for the send instant. Alphabets in the evidence assumptions; Opus is exempt from the size clause when the payload exceeds the budget (by design).",
       "bounded exhaustive enumeration of call histories and environment answers against a reference model (explicit choice-tree DFS on the real code)")
+
+SCALE_NOTE = " In addition to the small-scope product, scale scenarios take each length, count and index one at a time through the integer-width boundaries {255,256,257}, {16383,16384,16385}, {65535,65536} and one value well beyond, run sequences of 5-7 steps over a small alphabet, and use zero-filled content, value slices shared between calls and receivers that were used before (DESIGN.md 8.1)."
+for _pid in ["C01", "C02", "C03", "C05", "C06", "C08", "C09", "C10", "C12", "C13", "C14", "C19"]:
+    _r, _t, _n, _k = CLAIMED[_pid]
+    CLAIMED[_pid] = (_r, _t + SCALE_NOTE, _n, _k)
